@@ -42,7 +42,9 @@ MCTemplates == <<
   TX({1, 2},      <<S(NONE, 3)>>,    100000, 100000, 40000),        \* fixed M = 3 < ceil(40/12.5) = 4: not enough
   T({1, 2},       <<S(7, 2)>>,                   1, 2, FALSE),      \* centre legal, upper edge inside the guard band
   T({3, 4},       <<S(-6, NONE)>>,               1, 2, FALSE),      \* centre legal, lower edge inside the guard band
-  T({1, 2},       <<S(NONE, 4), S(5, 2)>>,       1, 2, FALSE)       \* the M-only slot covers the need; the fixed slot may be busy
+  T({1, 2},       <<S(NONE, 4), S(5, 2)>>,       1, 2, FALSE),      \* the M-only slot covers the need; the fixed slot may be busy
+  T({1, 2},       <<S(-3, 2)>>,                  1, 2, FALSE),      \* leaves a two-index hole at the bottom of the band
+  T({1, 2},       <<S(NONE, 2), S(NONE, 1)>>,    3, 1, FALSE)       \* two free-N slots of different widths: each takes ITS lowest position
 >>
 
 \* emission for the spec -> code replay (B2): one JSON line per complete history
